@@ -24,7 +24,7 @@ CACHE = os.path.expanduser("~/.cache/verif-svgbob")
 SCRATCH_ROOT = os.environ.get("VERIF_SCRATCH", "/var/tmp/verif-svgbob")
 KNOWN_FILE = os.path.join(VERIF, "known_findings.txt")
 NCPU = os.cpu_count() or 4
-TOTAL_MEM_GB = 56  # budget for concurrently running CBMC processes (62 GB box)
+TOTAL_MEM_GB = 90  # sum of per-harness virtual-memory caps allowed to run concurrently (caps are ~2-3x the real peak; 62 GB box)
 
 ENV = dict(os.environ)
 ENV["CARGO_NET_OFFLINE"] = "true"
